@@ -72,7 +72,7 @@ EXPECT_MISSED = {"M17b", "M11b"}  # semantically harmless changes: a check must 
 
 
 def sh(cmd, **kw):
-    return subprocess.run(cmd, shell=True, capture_output=True, text=True, env=ENV, **kw)
+    return subprocess.run(cmd, shell=True, capture_output=True, text=True, errors="replace", env=ENV, **kw)
 
 
 def revert():
